@@ -18,14 +18,14 @@ SPEC = {
     'closure_dirs': ['theories/C02', 'theories/C14/Corr.v'] + [w for w in WIRE if os.path.exists(os.path.join(vlib.COQ, w))],
     'harness': 'c02',
     'args': {
-        'quick': ['-docs', 2, '-heads', 1, '-rand', 1500, '-prefix', 3, '-model', 1500, '-long', 1, '-big', 1],
-        'thorough': ['-docs', 12, '-heads', 3, '-rand', 20000, '-prefix', 12, '-model', 12000, '-long', 4, '-big', 4],
+        'quick': ['-docs', 2, '-heads', 1, '-rand', 1500, '-prefix', 3, '-model', 1500, '-long', 1, '-big', 1, '-symbols', 1],
+        'thorough': ['-docs', 12, '-heads', 3, '-rand', 20000, '-prefix', 12, '-model', 12000, '-long', 4, '-big', 4, '-symbols', 3],
     },
-    'search_args': ['-docs', 6, '-heads', 2, '-rand', 6000, '-prefix', 6, '-model', 3000, '-long', 2, '-big', 2],
+    'search_args': ['-docs', 6, '-heads', 2, '-rand', 6000, '-prefix', 6, '-model', 3000, '-long', 2, '-big', 2, '-symbols', 2],
     'known_aliases': ['Wcbor', 'Wmsgpack', 'Wsimple', 'Wbinc', 'Wjson'],
     'eval_timeout': {'quick': 600, 'thorough': 2400},
     'assumptions': [
-        'time and memory are MODEL counts in the theorems (fuel of the wire models, steps of the walker skeleton C02/Steps.v, allocation requests of the run model C02/Alloc.v whose premises wf are the decoder invariants proved elsewhere (progress: W*_progress, depth: C14) or read off kSlice/kMap (pre-sizing by decInferLen, growth by append) and are NOT derived from the wire models inside Coq); the harness measures the real ones (/gc/heap/allocs:bytes delta, wall clock) against K0 + K1*len and K2 + K3*len with generous constants: K0 = 70 MB + levels*max(1024,MaxInitLen)*2*unit (+ reader buffer), K1 = 1024 + 8*unit (16 for a destination without containers: string, []byte, numbers), K2 = 0.4 s, K3 = 5 us/byte; MaxInitLen ranges over {MinInt, -1, 0, 1, 16, 1200, 4096, 70000}; destinations include zero-size element types (map[struct{}]struct{}, []struct{}, [][0]int); unit = largest element size of the destination type (48 for interface{} containers), levels = MaxDepth for interface{}/Raw/recursive types else the static container depth',
+        'time and memory are MODEL counts in the theorems (fuel of the wire models, steps of the walker skeleton C02/Steps.v, allocation requests of the run model C02/Alloc.v whose premises wf are the decoder invariants proved elsewhere (progress: W*_progress, depth: C14) or read off kSlice/kMap (pre-sizing by decInferLen, growth by append) and are NOT derived from the wire models inside Coq); the harness measures the real ones (/gc/heap/allocs:bytes delta, wall clock) against K0 + K1*len and K2 + K3*len with generous constants: K0 = 70 MB + levels*max(1024,MaxInitLen)*2*unit (+ reader buffer), K1 = 1024 + 8*unit (16 for a destination without containers: string, []byte, numbers); where the number of values nv in the input is known by construction (streams bigscalar, symbols) the bound is K0 + per*nv + 16*len with per = 64 + 8*unit for containers of scalars/strings only and K1 otherwise, K2 = 0.4 s, K3 = 5 us/byte; MaxInitLen ranges over {MinInt, -1, 0, 1, 16, 1200, 4096, 70000}; destinations include zero-size element types (map[struct{}]struct{}, []struct{}, [][0]int); unit = largest element size of the destination type (48 for interface{} containers), levels = MaxDepth for interface{}/Raw/recursive types else the static container depth',
         'the 64 MB in K0 is usableByteSlice: an array head claiming n elements decoded as bytes (into []byte or string destinations, map keys, struct field names) allocates min(n, 64 MB) before the first element is read; every other claimed length is capped by decInferLen at max(1024, MaxInitLen) elements',
         'workers run with RLIMIT_AS = 6 GB and debug.SetMaxStack(64 MB); a fatal exit or a stall beyond 20 s + 0.2 ms per input byte is attributed to the input being decoded',
         'the wire models cover Decode(&interface{}) and Decode(&Raw) from []byte for cbor, msgpack, simple, binc (outcome class + NumBytesRead compared as Coq cases); typed destinations, io.Reader transports, the other option flags and json are covered by the oracle only',
